@@ -298,6 +298,94 @@ pub fn run(ctx: &mut Ctx) -> (&'static str, String, bool) {
             json!({"declared": tracks.len(), "wire_forms": wire_to_variant.len(), "decodable": decodable.len()}),
         );
     }
+    // ---- the same table inside the packets that carry a track (STA, RST, the relay host list): every configuration is
+    //      recovered there, and six bytes that are no configuration make the packet an error there too --------------------
+    if let Ok(c) = crate::corpus::Corpus::load() {
+        use crate::{
+            corpus::{real_decode, real_encode, Dec, Enc},
+            refspec::{GenOpts, Kind, TextMode},
+        };
+        let mut p = Part::new();
+        let mut r = ctx.rng.fork(1414);
+        let mut sites: Vec<(String, usize, Vec<u8>)> = vec![];
+        for lay in c.kinds() {
+            for f in &lay.fields {
+                if matches!(f.kind, Kind::Track) {
+                    let o = GenOpts { text: TextMode::Ascii, max_list: Some(1), boundary: 4, hostile: false };
+                    if let Some((_, frame)) = c.ref_frame(&mut r, lay, &o, true) {
+                        sites.push((lay.name.clone(), f.off, frame));
+                    }
+                }
+            }
+        }
+        // the relay host list holds the track inside a 40-byte record: 32 bytes of host name, then the track
+        {
+            let lay = c.spec.packet("HOS");
+            let o = GenOpts { text: TextMode::Ascii, max_list: Some(1), boundary: 4, hostile: false };
+            if let Some((_, frame)) = (0..50).find_map(|_| c.ref_frame(&mut r, lay, &o, true).filter(|(_, f)| f[3] == 1 && f.len() == 44)) {
+                sites.push(("HOS".into(), 4 + 32, frame));
+            }
+        }
+        ctx.extra("packets_carrying_a_track", json!(sites.iter().map(|s| format!("{}@{}", s.0, s.1)).collect::<Vec<_>>()));
+        // configurations
+        for (name, t) in all_tracks() {
+            let Ok(wire) = encode(&t) else { continue };
+            if wire.len() != 6 {
+                continue;
+            }
+            for (kind, off, frame) in &sites {
+                let mut f = frame.clone();
+                f[*off..*off + 6].copy_from_slice(&wire);
+                p.evaluations += 1;
+                match real_decode(&f, true) {
+                    Dec::Packet(pk, _) => {
+                        let ok = format!("{:?}", pk).contains(&format!("{:?}", t)) && matches!(real_encode(&pk, true), Enc::Ok(b) if b[*off..*off + 6] == wire[..]);
+                        if !ok {
+                            p.violation(format!("C14/in-packet/{kind}/differs-from-standalone/{name}"), format!("{kind}: the wire form of Track::{name} decodes to {}", format!("{:?}", pk).chars().take(200).collect::<String>()), json!({"kind": kind, "variant": name, "frame": hex(&f)}));
+                        }
+                    },
+                    other => p.violation(format!("C14/in-packet/{kind}/configuration-rejected/{name}"), format!("{kind}: a packet holding Track::{name} is rejected: {}", format!("{:?}", other).chars().take(160).collect::<String>()), json!({"kind": kind, "variant": name, "frame": hex(&f)})),
+                }
+            }
+        }
+        // values that are no configuration: single-byte mutations of wire forms and shaped non-codes
+        let mut bad: Vec<[u8; 6]> = vec![];
+        for (_, t) in all_tracks().into_iter().step_by(5) {
+            if let Ok(w) = encode(&t) {
+                if w.len() == 6 {
+                    for pos in 0..6 {
+                        for v in [0u8, b'0', b'9', b'A', b'Z', b'x', 1, 0xff] {
+                            let mut m = [0u8; 6];
+                            m.copy_from_slice(&w);
+                            if m[pos] != v {
+                                m[pos] = v;
+                                bad.push(m);
+                            }
+                        }
+                    }
+                }
+            }
+        }
+        for m in bad {
+            if decode(&m).is_ok() {
+                continue; // still a configuration (another one)
+            }
+            for (kind, off, frame) in &sites {
+                let mut f = frame.clone();
+                f[*off..*off + 6].copy_from_slice(&m);
+                p.evaluations += 1;
+                p.distinct(&(kind, m));
+                if let Dec::Packet(pk, _) = real_decode(&f, true) {
+                    p.violation(
+                        format!("C14/in-packet/{kind}/non-configuration-accepted"),
+                        format!("{kind}: {} is the wire form of no configuration, yet the packet decodes: {}", hex(&m), format!("{:?}", pk).chars().take(200).collect::<String>()),
+                        json!({"kind": kind, "value": hex(&m), "frame": hex(&f)}),
+                    );
+                }
+            }
+        }
+        ctx.merge(p);
+    }
     ctx.assume("variant list parsed from `pub enum Track` in /repo/insim_core/src/track.rs by the harness build script");
     (
         "exploration",
